@@ -200,6 +200,26 @@ let run_case line =
            let outs = x_sl_run (z_of_int (ios a0), z_of_int (ios b0)) vals (nat_of_int (ios n)) (List.map (fun x -> nat_of_int (ios x)) sched) in
            String.concat ";" (List.map (fun l -> String.concat "," (List.map (fun (a, b) -> Printf.sprintf "%d:%d" (int_of_z a) (int_of_z b)) l)) outs)
        | _ -> failwith "sl sched")
+  | "ts" :: k :: ops ->
+      let top_of = function
+        | "clone" -> TClone | "wakeref" -> TWakeRef | "wake" -> TWakeVal | "dropw" -> TDropWaker
+        | "droptok" -> TTokenDrop | "cancel" -> TTokenCancel | "cancelfin" -> TCancelFinish
+        | "pollp" -> TPromisePoll | "dropp" -> TPromiseDrop | "start" -> TRunStart | "begin" -> TRunBegin
+        | "pending" -> TPollPending | "ready" -> TPollReady | "panic" -> TPollPanic | "rupd" -> TReadyUpdate
+        | "rfin" -> TReadyFinish | "cclose" -> TCancelClose | "dropr" -> TRunnableDrop
+        | t -> failwith ("ts op " ^ t) in
+      (match x_ts_check (k = "f") (List.map top_of ops) with
+       | None -> "OK"
+       | Some i -> "BAD-AT " ^ string_of_int (int_of_nat i))
+  | "crw" :: ops ->
+      let op_of tok = match split_on ',' tok with
+        | ["c"; i] -> CClone (nat_of_int (ios i))
+        | ["w"; i; x] -> CWrite (nat_of_int (ios i), nat_of_int (ios x))
+        | ["s"; i; x] -> CScratch (nat_of_int (ios i), nat_of_int (ios x))
+        | ["r"; i] -> CRead (nat_of_int (ios i))
+        | _ -> failwith "crw op" in
+      let show l = if l = [] then "-" else String.concat "." (List.map (fun n -> string_of_int (int_of_nat n)) l) in
+      String.concat " " (List.map show (x_crw_run (List.map op_of ops)))
   | "sim" :: ws -> run_sim ws
   | "ebuf" :: cap :: o :: ops ->
       String.concat " " (List.map optz_str
